@@ -32,69 +32,60 @@ type ipCase struct {
 var ipNames = map[string]string{"const": "PiecewiseConstant", "linear": "PiecewiseLinear", "pwcubic": "PiecewiseCubic",
 	"akima": "AkimaSpline", "fb": "FritschButland", "natural": "NaturalCubic", "clamped": "ClampedCubic", "notaknot": "NotAKnotCubic"}
 
-func ipHandler(line []byte, sum *core.Summary) error {
-	var c ipCase
-	if err := json.Unmarshal(line, &c); err != nil {
-		return err
+// newInterp returns a zero value of the interpolant type named m and its fitting call
+// (Fit, or FitWithDerivatives for PiecewiseCubic); nil for an unknown name.
+func newInterp(m string) (interp.Predictor, func(xs, ys, ds []float64) error) {
+	switch m {
+	case "const":
+		q := &interp.PiecewiseConstant{}
+		return q, func(xs, ys, _ []float64) error { return q.Fit(xs, ys) }
+	case "linear":
+		q := &interp.PiecewiseLinear{}
+		return q, func(xs, ys, _ []float64) error { return q.Fit(xs, ys) }
+	case "pwcubic":
+		q := &interp.PiecewiseCubic{}
+		return q, func(xs, ys, ds []float64) error { q.FitWithDerivatives(xs, ys, ds); return nil }
+	case "akima":
+		q := &interp.AkimaSpline{}
+		return q, func(xs, ys, _ []float64) error { return q.Fit(xs, ys) }
+	case "fb":
+		q := &interp.FritschButland{}
+		return q, func(xs, ys, _ []float64) error { return q.Fit(xs, ys) }
+	case "natural":
+		q := &interp.NaturalCubic{}
+		return q, func(xs, ys, _ []float64) error { return q.Fit(xs, ys) }
+	case "clamped":
+		q := &interp.ClampedCubic{}
+		return q, func(xs, ys, _ []float64) error { return q.Fit(xs, ys) }
+	case "notaknot":
+		q := &interp.NotAKnotCubic{}
+		return q, func(xs, ys, _ []float64) error { return q.Fit(xs, ys) }
 	}
-	name := "interp." + ipNames[c.M]
+	return nil, nil
+}
+
+// fitGood makes the fitting call of a well-posed case; it reports a hang, a panic or an error return.
+// tag is appended to the routine name in signatures (":history" for refits), whole is the replayable case.
+func fitGood(c *ipCase, fit func(xs, ys, ds []float64) error, name, tag string, whole any, sum *core.Summary) bool {
 	xs, ys, ds := fl(c.X), fl(c.Y), fl(c.Dydx)
-	var p interp.Predictor
 	var fitErr error
-	o := core.CallTimeout(20e9, func() {
-		switch c.M {
-		case "const":
-			q := &interp.PiecewiseConstant{}
-			fitErr = q.Fit(xs, ys)
-			p = q
-		case "linear":
-			q := &interp.PiecewiseLinear{}
-			fitErr = q.Fit(xs, ys)
-			p = q
-		case "pwcubic":
-			q := &interp.PiecewiseCubic{}
-			q.FitWithDerivatives(xs, ys, ds)
-			p = q
-		case "akima":
-			q := &interp.AkimaSpline{}
-			fitErr = q.Fit(xs, ys)
-			p = q
-		case "fb":
-			q := &interp.FritschButland{}
-			fitErr = q.Fit(xs, ys)
-			p = q
-		case "natural":
-			q := &interp.NaturalCubic{}
-			fitErr = q.Fit(xs, ys)
-			p = q
-		case "clamped":
-			q := &interp.ClampedCubic{}
-			fitErr = q.Fit(xs, ys)
-			p = q
-		case "notaknot":
-			q := &interp.NotAKnotCubic{}
-			fitErr = q.Fit(xs, ys)
-			p = q
-		}
-	})
-	if !o.Panicked && !o.Hung && p == nil {
-		return fmt.Errorf("unknown interpolator %q", c.M)
-	}
-	sum.Cases++
-	if c.N >= 3 {
-		sum.Nontrivial++
-	}
+	o := core.CallTimeout(20e9, func() { fitErr = fit(xs, ys, ds) })
 	switch {
 	case o.Hung:
-		sum.Fail("num:"+name+":hang", o.Text, c)
-		return nil
+		sum.Fail("num:"+name+tag+":hang", o.Text, whole)
+		return false
 	case o.Panicked:
-		sum.Fail("num:"+name+":panic", "Fit panicked on valid data: "+o.Text, c)
-		return nil
+		sum.Fail("num:"+name+tag+":panic", fmt.Sprintf("Fit panicked on valid data (knots %v data %v): %s", c.X, c.Y, o.Text), whole)
+		return false
 	case fitErr != nil:
-		sum.Fail("num:"+name+":fit-error", "Fit returned an error on a well-posed problem: "+fitErr.Error(), c)
-		return nil
+		sum.Fail("num:"+name+tag+":fit-error", fmt.Sprintf("Fit returned an error on a well-posed problem (knots %v data %v): %s", c.X, c.Y, fitErr.Error()), whole)
+		return false
 	}
+	return true
+}
+
+// checkQueries compares Predict / PredictDerivative of a fitted p with the exact values of the case.
+func checkQueries(p interp.Predictor, c *ipCase, name, tag string, whole any, sum *core.Summary) bool {
 	dp, hasD := p.(interp.DerivativePredictor)
 	unit := mulInt(pow2(-52), c.Tolu)
 	ym := big.NewRat(c.Ymax, 1)
@@ -109,8 +100,8 @@ func ipHandler(line []byte, sum *core.Summary) error {
 		})
 		sum.Count("queries", 1)
 		if o.Panicked {
-			sum.Fail("num:"+name+":panic", fmt.Sprintf("Predict(%v) panicked: %s", x, o.Text), c)
-			return nil
+			sum.Fail("num:"+name+tag+":panic", fmt.Sprintf("Predict(%v) panicked: %s; knots %v data %v", x, o.Text, c.X, c.Y), whole)
+			return false
 		}
 		tolv := new(big.Rat).Mul(unit, new(big.Rat).Add(c.Qmv[i].Rat(), ym))
 		if !within(v, c.Qv[i].Rat(), tolv) {
@@ -118,9 +109,9 @@ func ipHandler(line []byte, sum *core.Summary) error {
 			if c.Qk[i] {
 				kind = "knot-value"
 			}
-			sum.Fail("num:"+name+":"+kind, fmt.Sprintf("Predict(%v) = %v, the interpolant's exact value is %s (allowance %s); knots %v data %v",
-				x, v, c.Qv[i].Rat().RatString(), tolv.FloatString(18), c.X, c.Y), c)
-			return nil
+			sum.Fail("num:"+name+tag+":"+kind, fmt.Sprintf("Predict(%v) = %v, the interpolant's exact value is %s (allowance %s); knots %v data %v",
+				x, v, c.Qv[i].Rat().RatString(), tolv.FloatString(18), c.X, c.Y), whole)
+			return false
 		}
 		if c.Tolu > 0 {
 			noteRatio(name, errRatio(v, c.Qv[i].Rat(), tolv))
@@ -128,12 +119,35 @@ func ipHandler(line []byte, sum *core.Summary) error {
 		if hasD {
 			told := new(big.Rat).Mul(unit, new(big.Rat).Add(c.Qmd[i].Rat(), ym))
 			if !within(d, c.Qd[i].Rat(), told) {
-				sum.Fail("num:"+name+":derivative", fmt.Sprintf("PredictDerivative(%v) = %v, exact %s (allowance %s); knots %v data %v",
-					x, d, c.Qd[i].Rat().RatString(), told.FloatString(18), c.X, c.Y), c)
-				return nil
+				sum.Fail("num:"+name+tag+":derivative", fmt.Sprintf("PredictDerivative(%v) = %v, exact %s (allowance %s); knots %v data %v",
+					x, d, c.Qd[i].Rat().RatString(), told.FloatString(18), c.X, c.Y), whole)
+				return false
 			}
 			noteRatio(name+":derivative", errRatio(d, c.Qd[i].Rat(), told))
 		}
+	}
+	return true
+}
+
+func ipHandler(line []byte, sum *core.Summary) error {
+	var c ipCase
+	if err := json.Unmarshal(line, &c); err != nil {
+		return err
+	}
+	name := "interp." + ipNames[c.M]
+	p, fit := newInterp(c.M)
+	if p == nil {
+		return fmt.Errorf("unknown interpolator %q", c.M)
+	}
+	sum.Cases++
+	if c.N >= 3 {
+		sum.Nontrivial++
+	}
+	if !fitGood(&c, fit, name, "", c, sum) {
+		return nil
+	}
+	if !checkQueries(p, &c, name, "", c, sum) {
+		return nil
 	}
 	if c.N == 4 && c.Dv == 1 {
 		sum.Sample(map[string]any{"routine": name, "x": c.X, "y": c.Y, "query": c.Qx[len(c.Qx)-1], "spec_value": c.Qv[len(c.Qv)-1], "got": p.Predict(c.Qx[len(c.Qx)-1].F())})
